@@ -290,8 +290,10 @@ def plan(tier, seed):
                 pre += ["role in (0, 1, 3)"]
         elif tier == "thorough":
             pre += ["m0 in (0, 2, 6)", "m1 in (0, 1, 5)", "m2 in (0, 1, 6)", "el == 0", "not xa"]
+            if "ds" in params:
+                pre += ["ds != 10"]     # a descriptor naming an identifier that is not an atom makes == / hash raise (before and after renaming): the 'usable like a fresh graph' clause has nothing to compare; C09 / C19 keep the decoration
             if u.name.endswith("SCRG"):
-                pre += ["ds in (0, 1, 8, 9, 10)", "cs in (0, 3, 5, 7)", "ds == 0 or cs == 0 or (ds == 8 and cs == 7)", "role in (0, 3, 6) or (ds == 0 and cs == 0)", "m0 in (0, 2, 6)"]
+                pre += ["ds in (0, 1, 8, 9)", "cs in (0, 3, 5, 7)", "ds == 0 or cs == 0 or (ds == 8 and cs == 7)", "role in (0, 3, 6) or (ds == 0 and cs == 0)", "m0 in (0, 2, 6)"]
         units.append(Sel(name="relabel_" + u.name[4:], func=f"vp.props.C11:{f}", params=params, pre=pre, shard_by=u.shard_by,
                          timeout=u.timeout, nontrivial="m0 + m1 + m2 > 0"))
     return units
